@@ -51,46 +51,75 @@ class InjectedFault(OSError):
   pass
 
 
-class FaultyData:
-  """A FederatedData whose dataset loading can be made to fail once (a transient storage error).
+def make_faulty_class(base):
+  """A FederatedData (subclass of the public interface) that delegates to another one and whose dataset loading
+  can be made to fail once (a transient storage error).
 
   `arm(j)`: the j-th dataset load from now on (0-based, counted over `get_clients` yields and `get_client`
   calls) raises InjectedFault instead; j = 0 fails before anything is yielded. One shot."""
 
-  def __init__(self, fd):
-    self._fd = fd
-    self._armed = None
-    self.triggered = False
+  class FaultyData(base):
 
-  def arm(self, j):
-    self._armed, self.triggered = j, False
+    def __init__(self, fd):
+      self._fd = fd
+      self._armed = None
+      self.triggered = False
 
-  def disarm(self):
-    self._armed = None
+    def arm(self, j):
+      self._armed, self.triggered = j, False
 
-  def _load(self):
-    if self._armed is not None:
-      if self._armed == 0:
-        self._armed, self.triggered = None, True
-        raise InjectedFault('injected transient storage error')
-      self._armed -= 1
+    def disarm(self):
+      self._armed = None
 
-  def get_clients(self, client_ids):
-    it = iter(self._fd.get_clients(client_ids))
-    while True:
+    def _load(self):
+      if self._armed is not None:
+        if self._armed == 0:
+          self._armed, self.triggered = None, True
+          raise InjectedFault('injected transient storage error')
+        self._armed -= 1
+
+    def get_clients(self, client_ids):
+      it = iter(self._fd.get_clients(client_ids))
+      while True:
+        self._load()
+        try:
+          item = next(it)
+        except StopIteration:
+          return
+        yield item
+
+    def get_client(self, client_id):
       self._load()
-      try:
-        item = next(it)
-      except StopIteration:
-        return
-      yield item
+      return self._fd.get_client(client_id)
 
-  def get_client(self, client_id):
-    self._load()
-    return self._fd.get_client(client_id)
+    def slice(self, start=None, stop=None):
+      return self._fd.slice(start, stop)
 
-  def __getattr__(self, name):
-    return getattr(self._fd, name)
+    def num_clients(self):
+      return self._fd.num_clients()
+
+    def client_ids(self):
+      return self._fd.client_ids()
+
+    def client_sizes(self):
+      return self._fd.client_sizes()
+
+    def client_size(self, client_id):
+      return self._fd.client_size(client_id)
+
+    def clients(self):
+      return self._fd.clients()
+
+    def shuffled_clients(self, buffer_size, seed=None):
+      return self._fd.shuffled_clients(buffer_size, seed)
+
+    def preprocess_client(self, fn):
+      return self._fd.preprocess_client(fn)
+
+    def preprocess_batch(self, fn):
+      return self._fd.preprocess_batch(fn)
+
+  return FaultyData
 
 
 def keydata(k):
@@ -116,10 +145,14 @@ class C13(core.Property):
           'different PYTHONHASHSEED per run over a sliced dataset (listings, shuffled passes, both samplers) '
           'and streaming restarts (buffer, stream seed, cohort, start round r0, k calls); non-trivial = history has '
           '>= 2 sample() calls with a jump or a failed sample, or stream restart with r0 >= 1; distinct by case digest')
-  TRUSTED = ['numpy RandomState determinism and choice(replace=False) returning distinct members of its '
-             'argument; jax.random.split giving distinct keys (all monitored on every observed cohort)',
-             'the harness replicates one line of fedjax (mlcg_start = RandomState(seed).randint(1, 2**31-2)) '
-             'to obtain the Lehmer start value the model takes as input']
+  TRUSTED = ['numpy RandomState determinism and jax.random key derivation (distinctness of ids and keys is checked on '
+             'every observed cohort)',
+             'what "the cohort and keys of round r" are is taken from the implementation through its public API (a fresh '
+             'sampler started at r); the numpy/jax replicas of the anchored derivation (RandomState(lehmer).choice over '
+             'the object id array, split(PRNGKey(r), n), get_pseudo_random_state) are evidence counts '
+             '(replica_*_agree / _differ), not requirements: the property fixes the samplers only as functions of '
+             '(seed, round). The C13_lehmer_* theorems therefore describe the anchored derivation as long as '
+             'replica_lehmer_differ stays 0 in the evidence']
   ASSUMPTIONS = ['round numbers < 2**31 (jax.random.PRNGKey(r) wraps modulo 2**32 without x64, so keys of '
                  'rounds r and r + 2**32 coincide; outside the tested domain)',
                  'the streaming sampler is given a fresh iterator of the same seeded client stream',
@@ -128,7 +161,7 @@ class C13(core.Property):
                  'get_client), not inside fedjax',
                  'on large populations the fresh-sampler / re-seated comparison is made for the first two and the '
                  'last round of the history and for every retry after a failure; distinctness, membership, keys and '
-                 'the exact comparison with RandomState(lehmer).choice are made for every round']
+                 'the comparison with a fresh sampler at the round the model names are made for every round']
   QUICK_BUDGET_S = 100
   THOROUGH_BUDGET_S = 540
 
@@ -137,7 +170,10 @@ class C13(core.Property):
     from fedjax.core import client_samplers as cs
     from fedjax.core import in_memory_federated_data as mem
     from fedjax.core import sqlite_federated_data as sql
+    from fedjax.core import federated_data as fdm
     self.jax, self.cs, self.mem, self.sql = jax, cs, mem, sql
+    self.FaultyData = make_faulty_class(fdm.FederatedData)
+    self.stream_key_cache = {}
     self.tmp = tempfile.mkdtemp(prefix='c13_')
     self.sql_cache = {}
     self.big_cache = {}
@@ -176,6 +212,14 @@ class C13(core.Property):
     if big:
       self.big_cache[(backend, len(ids_hex))] = (self.sql_cache[key], tab, ids_hex)
     return self.sql_cache[key], tab
+
+  def stream_keys_ref(self, r, n):
+    """Keys a streaming sampler hands out at round r for a cohort of n, obtained through the public API (a sampler
+    started at round r over a dummy stream); the property fixes them only as 'a function of the round'."""
+    if (r, n) not in self.stream_key_cache:
+      s = self.cs.UniformShuffledClientSampler(((b'k%d' % i, None) for i in itertools.count()), n, r)
+      self.stream_key_cache[(r, n)] = [list(keydata(k)) for _, _, k in s.sample()]
+    return self.stream_key_cache[(r, n)]
 
   def keys_of(self, r, n):
     if (r, n) not in self.key_cache:
@@ -239,7 +283,8 @@ class C13(core.Property):
         n = rng.randrange(1, min(2 * nc, 9) + 1)
         yield {'kind': 'stream', 'backend': backend, 'ids': ids, 'n': n, 'r0': rng.randrange(0, 7),
                'k': rng.randrange(1, 4), 'buffer': rng.choice([1, 2, 3, nc, nc + 3, 100]),
-               'sseed': rng.randrange(0, 1000)}
+               'sseed': rng.choice([0, 0, rng.randrange(0, 1000), rng.randrange(0, 2**32)]),
+               'sseed_np': rng.random() < 0.3}
         continue
       n = rng.choice([1, nc, rng.randrange(1, nc + 1)])
       seed = rng.choice([0, 1, 2, 7, 123456789, 2**32 - 1, rng.randrange(0, 2**32)])
@@ -274,7 +319,8 @@ class C13(core.Property):
     if which == 'stream':
       r0 = rng.choice([1, 30, 63, 64, 65, rng.randrange(2, 63)])
       return {'kind': 'stream', 'backend': backend, 'ids': ids, 'n': rng.choice([1, 2, 3]), 'r0': r0,
-              'k': rng.randrange(136, 200) - r0, 'buffer': rng.choice([1, 2, nc, 100]), 'sseed': rng.randrange(0, 1000)}
+              'k': rng.randrange(136, 200) - r0, 'buffer': rng.choice([1, 2, nc, 100]),
+              'sseed': rng.choice([0, rng.randrange(0, 1000)]), 'sseed_np': rng.random() < 0.3}
     n = rng.choice([1, min(2, nc)])
     seed = rng.choice([0, 1, rng.randrange(0, 2**32)])
     if which == 'consecutive':
@@ -401,7 +447,7 @@ class C13(core.Property):
     ids_hex = case_ids(case)
     big = len(ids_hex) >= 500
     fd, tab = self.dataset(case['backend'], ids_hex)
-    faulty = FaultyData(fd)
+    faulty = self.FaultyData(fd)
     n, seed, r0, ops = case['n'], case['seed'], case['r0'], case['ops']
     problems, corr, key = [], [], None
 
@@ -432,9 +478,6 @@ class C13(core.Property):
             ctx.count('failed_samples')
             eff_ops.append(-2)
             failed_last = True
-            if hasattr(sampler, '_round_num') and sampler._round_num != cur:
-              corr.append(f'a sample() that raised {type(e).__name__} at round {cur} left _round_num = '
-                          f'{sampler._round_num}')
             continue
           faulty.disarm()         # the implementation did not load that many datasets, or swallowed the error
           outs.append(self.obs(res))
@@ -466,13 +509,14 @@ class C13(core.Property):
       if r in by_round and by_round[r] != out:
         fail('C13/get/history-dependent', f'round {r} sampled twice in the history gave different results')
       by_round.setdefault(r, out)
+    ref = {}          # round -> what a fresh sampler started at that round returns (public API)
     rs = sorted(by_round)
     recheck = set(rs) if not big else set(rs[:2] + rs[-1:]) | (after_failure & set(rs))
     for r, out in sorted(by_round.items()):
       if r not in recheck:
         continue
       try:
-        fresh = self.obs(cs.UniformGetClientSampler(fd, n, seed, r).sample())
+        fresh = ref[r] = self.obs(cs.UniformGetClientSampler(fd, n, seed, r).sample())
         s2 = cs.UniformGetClientSampler(fd, n, seed, 0)
         s2.sample()
         s2.set_round_num(r)
@@ -513,45 +557,70 @@ class C13(core.Property):
           fail('C13/get/keys', f'key {kk} handed out in rounds {allkeys[kk]} and {r}')
         allkeys[kk] = r
 
-    # ---- correspondence with the Lean model (oracles = real numpy / jax calls named by the model)
+    # ---- correspondence with the Lean model. The model names, for every successful sample() of the history, the
+    # round it belongs to (and the numpy seed of that round). What "the cohort of round r" is, is taken from the
+    # implementation through its public API (a fresh sampler started at r), because the property fixes cohorts and
+    # keys only as functions of (seed, round). The numpy / jax replicas (RandomState(lehmer).choice over the id
+    # array, split(PRNGKey(r), n), get_pseudo_random_state) are recorded as agreement counts in the evidence: a
+    # sampler that derives its per-round randomness differently is not a violation.
     start = int(np.random.RandomState(seed).randint(1, P - 1))
     ans = ctx.drv.ask([line('c13.run', start, n, r0, eff_ops)])[0]
     final_round, mouts = ans
     msamples = [m for m in mouts if m is not None]
     if len(msamples) != len(outs):
       corr.append(f'model answered {len(msamples)} samples for {len(outs)}')
+
+    def reference(r):
+      if r not in ref:
+        ref[r] = self.obs(cs.UniformGetClientSampler(fd, n, seed, r).sample())
+      return ref[r]
     ids_arr = np.array(list(fd.client_ids()), dtype=object)
     for j, (m, out) in enumerate(zip(msamples, outs)):
       npseed, rnd = m[0]
       if len(m) != n or any(x != [npseed, rnd] for x in m):
         corr.append(f'malformed model answer {m}')
         continue
-      want_ids = [c.hex() for c in np.random.RandomState(npseed).choice(ids_arr, size=n, replace=False)]
-      want_keys = [list(k) for k in self.keys_of(rnd, n)]
-      got_ids = [x[0] for x in out]
-      if got_ids != want_ids:
-        d = next((t for t in range(min(len(got_ids), len(want_ids))) if got_ids[t] != want_ids[t]), None)
-        corr.append(f'sample #{j} (round {rnd}): ids differ from RandomState({npseed}).choice(ids, {n}, replace=False)'
-                    + (f': {got_ids} vs {want_ids}' if n <= 12 else
-                       f' first at position {d}: {got_ids[d] if d is not None else len(got_ids)} vs '
-                       f'{want_ids[d] if d is not None else len(want_ids)}'))
-      if [x[2] for x in out] != want_keys:
-        corr.append(f'sample #{j}: keys differ from split(PRNGKey({rnd}), {n})')
-      ctx.count('oracle_choice_calls')
-      # oracle hypotheses of C13_no_repeat / C13_ids_member, monitored
-      if len(set(want_ids)) != n or any(bytes.fromhex(h) not in tab for h in want_ids):
-        corr.append(f'numpy choice oracle violated its assumption: {want_ids}')
-    if getattr(sampler, '_round_num', final_round) != final_round:
-      corr.append(f'final round: impl {sampler._round_num} vs model {final_round}')
-    # the seed derivation itself, on the rounds of this history
+      try:
+        want = reference(rnd)
+      except Exception as e:
+        corr.append(f'fresh sampler at the model\'s round {rnd} raised {type(e).__name__}')
+        continue
+      if out != want:
+        got_ids, want_ids = [x[0] for x in out], [x[0] for x in want]
+        corr.append(f'sample #{j}: the model places it at round {rnd}, but it is not what a fresh sampler started at '
+                    f'round {rnd} returns' + (f': ids {got_ids} vs {want_ids}' if n <= 12 else ''))
+      # replicas (informational)
+      try:
+        rep_ids = [c.hex() for c in np.random.RandomState(npseed).choice(ids_arr, size=n, replace=False)]
+        ctx.count('replica_ids_agree' if [x[0] for x in out] == rep_ids else 'replica_ids_differ')
+        ctx.count('replica_keys_agree' if [x[2] for x in out] == [list(k) for k in self.keys_of(rnd, n)]
+                  else 'replica_keys_differ')
+      except Exception:
+        ctx.count('replica_unavailable')
+    # the round the history ends in, observed through the public API: one more sample()
+    try:
+      extra = self.obs(sampler.sample())
+      if extra != reference(final_round):
+        corr.append(f'after the history the model is at round {final_round}, but one more sample() does not return '
+                    f'what a fresh sampler started at round {final_round} returns')
+    except Exception as e:
+      corr.append(f'one more sample() after the history raised {type(e).__name__}: {e}')
+    # the seed derivation itself (informational; the helper is not part of the property)
     lans = ctx.drv.ask([line('c13.lehmer', start, r) for r in sorted(by_round)])
     for r, ms in zip(sorted(by_round), lans):
-      st_impl = cs.get_pseudo_random_state(seed, r).get_state()
-      st_model = np.random.RandomState(ms).get_state()
-      if not (np.array_equal(st_impl[1], st_model[1]) and st_impl[2] == st_model[2]):
-        corr.append(f'get_pseudo_random_state({seed}, {r}) is not RandomState(lehmer = {ms})')
       if not 1 <= ms <= P - 1:
-        corr.append(f'lehmer value {ms} outside [1, 2^31-2]')
+        corr.append(f'lehmer value {ms} outside [1, 2^31-2]')      # about the model alone (C13_lehmer_nonzero)
+      helper = getattr(cs, 'get_pseudo_random_state', None)
+      if helper is None:
+        ctx.count('replica_lehmer_unavailable')
+        continue
+      try:
+        st_impl = helper(seed, r).get_state()
+        st_model = np.random.RandomState(ms).get_state()
+        ctx.count('replica_lehmer_agree' if (np.array_equal(st_impl[1], st_model[1]) and st_impl[2] == st_model[2])
+                  else 'replica_lehmer_differ')
+      except Exception:
+        ctx.count('replica_lehmer_unavailable')
 
     jumps = sum(1 for o in ops if isinstance(o, int) and o >= 0)
     nfail = eff_ops.count(-2)
@@ -574,6 +643,8 @@ class C13(core.Property):
     cs = self.cs
     fd, tab = self.dataset(case['backend'], case['ids'])
     n, r0, k, buf, sseed = case['n'], case['r0'], case['k'], case['buffer'], case['sseed']
+    if case.get('sseed_np'):
+      sseed = np.int64(sseed)       # a legal seed that is falsy when 0, like the python int 0
     problems, corr, key = [], [], None
     try:
       a = cs.UniformShuffledClientSampler(fd.shuffled_clients(buf, sseed), n, 0)
@@ -616,6 +687,15 @@ class C13(core.Property):
         if cid not in tab or rows != [int(v) for v in tab[cid]['x']]:
           key = key or 'C13/stream/ids'
           problems.append(f'round {r}: ({h}, {rows}) is not a client of the dataset')
+    # ---- the stream of a sampler must not depend on OTHER reads of the same dataset object made meanwhile
+    # (evaluation passes, point lookups, a second sampler over another stream of the same object)
+    try:
+      inter = self._interleaved(fd, tab, n, r0, k, buf, sseed, outs_a)
+    except Exception as e:
+      inter = [f'raised {type(e).__name__}: {str(e)[:150]}']
+    for msg in inter[:2]:
+      key = key or 'C13/stream/interleaved-queries'
+      problems.append(msg)
     # ---- correspondence: positions of the stream named by the model
     prefix = [(cid.hex(), [int(v) for v in ds.all_examples()['x']])
               for cid, ds in itertools.islice(fd.shuffled_clients(buf, sseed), (r0 + k) * n)]
@@ -625,12 +705,19 @@ class C13(core.Property):
         corr.append(f'{name}: model {len(cohorts)} cohorts vs impl {len(outs)}')
         continue
       for c, out in zip(cohorts, outs):
-        want = [[prefix[p][0], prefix[p][1], list(self.keys_of(r, n)[i])] for i, (p, r) in enumerate(c)]
+        want = [[prefix[p][0], prefix[p][1], self.stream_keys_ref(r, n)[i]] for i, (p, r) in enumerate(c)]
+        if c:
+          ctx.count('replica_stream_keys_agree' if [w[2] for w in want] == [list(x) for x in self.keys_of(c[0][1], n)]
+                    else 'replica_stream_keys_differ')
         if want != out:
           corr.append(f'{name}: cohort at stream positions {[p for p, _ in c]} differs: impl {out} vs {want}')
           break
-    if getattr(b, '_round_num', ans[0][2]) != ans[0][2]:
-      corr.append(f'final round of restarted sampler: impl {b._round_num} vs model {ans[0][2]}')
+    # the round the restarted sampler ends in, through the public API: the keys of one more sample()
+    try:
+      if [m[2] for m in self.obs(b.sample())] != self.stream_keys_ref(ans[0][2], n):
+        corr.append(f'restarted sampler: the model ends at round {ans[0][2]}, one more sample() has other keys')
+    except Exception as e:
+      corr.append(f'one more sample() of the restarted sampler raised {type(e).__name__}')
     # the stream is genuinely shuffled/seeded: a pass visits every client once (monitor, C08/C15 prove it)
     nc = len(case['ids'])
     if len(prefix) >= nc and len({p[0] for p in prefix[:nc]}) != nc:
@@ -641,6 +728,62 @@ class C13(core.Property):
                    nontrivial=r0 >= 1, tags=tags + (('long-history',) if r0 + k >= 130 else ()),
                    detail={'from0': outs_a[:4], 'restarted': outs_b[:4],
                            'model': ans[0] if r0 + k < 20 else ans[0][1:]})
+
+  def _interleaved(self, fd, tab, n, r0, k, buf, sseed, outs_a):
+    """Samplers whose dataset object is also read by others between their reads: same rounds as alone."""
+    cs = self.cs
+    problems = []
+    ids = sorted(tab)
+    rounds = min(r0 + k, 40)
+
+    def noisy(stream):
+      q = 0
+      while True:
+        kind = q % 7
+        if kind == 0:
+          fd.num_clients()
+        elif kind == 1:
+          list(fd.client_ids())
+        elif kind == 2:
+          fd.get_client(ids[q % len(ids)])
+        elif kind == 3:
+          list(fd.get_clients(ids[:2]))
+        elif kind == 4:
+          list(fd.client_sizes())
+        elif kind == 5:
+          fd.client_size(ids[q % len(ids)])
+        else:
+          next(iter(fd.clients()))
+        q += 1
+        yield next(stream)
+    # (1) other queries on the same object between every two reads of the stream and between rounds
+    a2 = cs.UniformShuffledClientSampler(noisy(fd.shuffled_clients(buf, sseed)), n, 0)
+    ev = cs.UniformGetClientSampler(fd, min(n, len(ids)), 1, 0)       # periodic evaluation on the same object
+    other = fd.shuffled_clients(buf, 12345)                           # somebody else's stream of the same object
+    for r in range(rounds):
+      out = self.obs(a2.sample())
+      ev.sample()
+      next(other)
+      if out != outs_a[r]:
+        problems.append(f'streaming sampler over shuffled_clients({buf}, {int(sseed)}): when the same dataset object '
+                        f'is also queried between its reads (num_clients, client_ids, get_client, get_clients, '
+                        f'client_sizes, client_size, clients, a round-indexed sampler, a second stream) round {r} is '
+                        f'{[m[0] for m in out]} instead of {[m[0] for m in outs_a[r]]}')
+        break
+    # (2) the original sampler and a sampler restarted at r0 over the same object, advanced in lock step
+    a3 = cs.UniformShuffledClientSampler(fd.shuffled_clients(buf, sseed), n, 0)
+    for r in range(min(r0, 40)):
+      a3.sample()
+    if r0 <= 40:
+      b3 = cs.UniformShuffledClientSampler(fd.shuffled_clients(buf, sseed), n, r0)
+      for j in range(min(k, 40)):
+        ob, oa = self.obs(b3.sample()), self.obs(a3.sample())
+        if ob != outs_a[r0 + j] or oa != outs_a[r0 + j]:
+          problems.append(f'original and restarted (round {r0}) streaming samplers over the same dataset object, '
+                          f'advanced in lock step: round {r0 + j} is {[m[0] for m in oa]} / {[m[0] for m in ob]}, '
+                          f'alone it is {[m[0] for m in outs_a[r0 + j]]}')
+          break
+    return problems
 
   def _eval_xproc(self, case, ctx):
     """The same sliced dataset, streams and samplers in this process and in two fresh interpreters that differ
@@ -687,6 +830,11 @@ class C13(core.Property):
           if sorted(rec.get('shuffled', [])[t * n:(t + 1) * n]) != ids:
             key = key or 'C13/xproc/shuffled'
             problems.append(f'{impl}: pass {t} of shuffled_clients is not every client once')
+        if not (rec.get('shuffled_seed0') == rec.get('shuffled_seed0_again') == rec.get('shuffled_seed0_np')):
+          key = key or 'C13/stream/seed-not-honoured'
+          problems.append(f'{impl}: three streams shuffled_clients({spec["buffer"]}, seed) with seed 0, 0 and '
+                          f'np.int64(0) differ: {rec.get("shuffled_seed0")} / {rec.get("shuffled_seed0_again")} / '
+                          f'{rec.get("shuffled_seed0_np")}')
         if rec.get('stream_from_r0') != rec.get('stream_from0', [])[spec['r0']:]:
           key = key or 'C13/stream/restart'
           problems.append(f'{impl}: streaming sampler restarted at round {spec["r0"]} differs from the original run')
